@@ -1,7 +1,7 @@
-\* sensitivity run: broken variant endpos must violate an invariant
+\* sensitivity run: broken variant stuck must deadlock (comma tokens are not consumed)
 CONSTANTS
   N = 4
-  Bug = "endpos"
+  Bug = "stuck"
 SPECIFICATION Spec
 INVARIANT Tiling
 INVARIANT TokenClasses
